@@ -144,6 +144,7 @@ let () = serve (fun fn req ->
     of_option (of_wres (fun fs -> JArr (SL.map of_tfield fs)))
       (purchase_decode_all (jschema (jfield req "schema")) (jnat (jfield req "depth")) (jn (jfield req "m"))
          (jbytes (jfield req "d")))
+  | "v1_unsigned_payload" -> of_wres of_bytes (v1_unsigned_payload (jbytes (jfield req "d")))
   | "hexlify" -> of_bytes (hexlify (jbytes (jfield req "b")))
   | "unhexlify" -> of_option of_bytes (unhexlify (jbytes (jfield req "s")))
   | "claim_id_of_hash" -> of_bytes (claim_id_of_hash (jbytes (jfield req "h")))
